@@ -1,5 +1,5 @@
 // native replay for C04 / C05: the real Message::factory / MessageBase::decode (runtime/message.cpp compiled from the working tree) on the generated FIX42 test classes
-// usage: k_dec [strict_unknown|strict_misplaced|permissive_unknown|all]
+// usage: k_dec [strict_unknown|strict_misplaced|permissive_unknown|permissive_plain|data_soh|all]
 #include <fix8/f8includes.hpp>
 #include "utest_types.hpp"
 #include "utest_router.hpp"
@@ -74,6 +74,22 @@ static void permissive_plain()
 		REPORT("{\"scenario\":\"conforming message, strict vs permissive re-encoding\",\"strict\":\"%s\",\"permissive\":\"%s\",\"strict_length\":%zu,\"permissive_length\":%zu,\"checksum_fields_in_permissive\":%zu}",
 			a.substr(0, 40).c_str(), b.substr(0, 40).c_str(), rs.size(), rp.size(), count(rp, "\00110="));
 }
+static void data_soh()
+{
+	// a Logon whose RawData (96, preceded by RawDataLength 95) contains the separator byte: the data value is the counted bytes
+	const std::string data("ab\001cd=e\001f");
+	const std::string body("98=0\001108=30\00195=" + std::to_string(data.size()) + "\00196=" + data + "\001");
+	try
+	{
+		std::unique_ptr<Message> m(Message::factory(ctx(), frame("A", hdr + body), false, false));
+		if (!m) { REPORT("{\"scenario\":\"strict, data field containing the separator\",\"outcome\":\"null\"}"); return; }
+		RawData rd;
+		const bool got(m->get(rd));
+		if (!got || rd.get() != data)
+			REPORT("{\"scenario\":\"strict, data field containing the separator\",\"outcome\":\"accepted\",\"data_field_present\":%d,\"decoded_length\":%zu,\"declared_length\":%zu}", (int)got, got ? rd.get().size() : (size_t)0, data.size());
+	}
+	catch (f8Exception& e) { REPORT("{\"scenario\":\"strict, data field containing the separator\",\"outcome\":\"throw:%s\"}", e.what()); }
+}
 int main(int argc, char **argv)
 {
 	const std::string which(argc > 1 ? argv[1] : "all");
@@ -81,6 +97,7 @@ int main(int argc, char **argv)
 	if (which == "strict_misplaced" || which == "all") strict_misplaced();
 	if (which == "permissive_unknown" || which == "all") permissive_unknown();
 	if (which == "permissive_plain" || which == "all") permissive_plain();
+	if (which == "data_soh" || which == "all") data_soh();
 	printf("{\"search_done\":true,\"class\":\"%s\",\"mismatches\":%d}\n", which.c_str(), bad);
 	fflush(stdout);
 	_exit(bad ? 1 : 0);
